@@ -57,9 +57,34 @@ def check_latency(ctx, v, params, kind, origin):
         shared = tok.make_tokenizer(tok.FRAME_KINDS[kind](v)[1], params)
         ctx.count("cases_one_tokenizer_for_all_modes")
     order = ("generator", "callback", "list") if len(v) % 3 else ("list", "callback", "generator")
+    stale = None
+    if shared is not None and len(v) >= 3 and (len(v) + params[1]) % 3 == 0:
+        # an earlier, abandoned generator of the same tokenizer is still around; it gets finalised in the middle of a later run
+        fr0, _ = tok.FRAME_KINDS[kind](v[: max(2, len(v) // 2)] + (1,) * params[1])
+        stale = shared.tokenize(tok.CountingSource(fr0), generator=True)
+        try:
+            next(stale)
+        except StopIteration:
+            stale = None
+        ctx.count("cases_with_a_stale_generator_finalised_mid_run")
     for delivery in order:
         try:
-            tokens, at, src = timed_run(v, params, kind, delivery, shared)
+            if stale is not None and delivery in ("generator", "callback"):
+                frames_, _ = tok.FRAME_KINDS[kind](v)
+                src = tok.CountingSource(frames_)
+                at, tokens = [], []
+                holder = [stale]
+                stale = None
+
+                def on_tok(t, late, _h=holder, _src=src, _at=at):
+                    _at.append(_src.reads)
+                    if _h[0] is not None:
+                        _h[0].close()
+                        _h[0] = None
+
+                tokens = tok.deliver(shared, src, delivery, on_token=on_tok)
+            else:
+                tokens, at, src = timed_run(v, params, kind, delivery, shared)
         except Exception as exc:
             ctx.violation("exception:" + type(exc).__name__, {"case": dict(case, delivery=delivery), "exception": repr(exc)[:200]})
             return None
@@ -285,6 +310,94 @@ def check_split_lazy_overlap(ctx, case, rng):
         ctx.violation("exception:" + type(exc).__name__, {"case": cj, "source": "overlap-reader", "exception": repr(exc)[:300]})
 
 
+def check_split_lazy_by_validator(ctx, case, tmpdir, rng):
+    """Any input kind, observed at the validator: when a region is yielded, the number of windows the validator has been
+    asked about is at most last_window + max_silence_windows + 2 (file names eager/lazy, bytes, regions, readers ...)."""
+    import os
+    import wave
+
+    from auditok.util import AudioEnergyValidator
+
+    built = AC.build_audio(case)
+    if built is None:
+        return
+    data, verdicts = built
+    expected = AC.expected_regions(case, data, verdicts)
+    bps = case["width"] * case["channels"]
+    inner = AudioEnergyValidator(case["thr"], case["width"], case["channels"], use_channel=case["uc"])
+    calls = [0]
+
+    def counting(frame):
+        calls[0] += 1
+        return inner.is_valid(frame)
+
+    kw = {k: v for k, v in AC.split_kwargs(case).items() if k not in ("energy_threshold", "use_channel")}
+    kw["validator" if case["pcm_seed"] & 1 else "val"] = counting
+    kind = ("raw_path", "raw_path_lazy", "wav_path", "wav_path_lazy", "bytes", "region")[rng.randrange(6)]
+    try:
+        if kind.startswith("raw"):
+            path = os.path.join(tmpdir, "v.raw")
+            with open(path, "wb") as fp:
+                fp.write(data)
+            gen = auditok.split(path, large_file=kind.endswith("lazy"), **kw, **AC.audio_kwargs(case))
+        elif kind.startswith("wav"):
+            path = os.path.join(tmpdir, "v.wav")
+            with wave.open(path, "wb") as fp:
+                fp.setframerate(case["rate"]); fp.setsampwidth(case["width"]); fp.setnchannels(case["channels"])
+                fp.writeframes(data)
+            gen = auditok.split(path, large_file=kind.endswith("lazy"), **kw)
+        elif kind == "bytes":
+            gen = auditok.split(data, **kw, **AC.audio_kwargs(case))
+        else:
+            gen = auditok.AudioRegion(data, case["rate"], case["width"], case["channels"]).split(**kw)
+        n = 0
+        for r in gen:
+            s_ = round(r.start * case["rate"])
+            ns = len(bytes(r)) // bps
+            last_window = (s_ + ns - 1) // case["block"]
+            bound = last_window + case["max_sil"] + 2
+            ctx.count("regions_timed_at_validator")
+            ctx.count("regions_timed_at_validator_" + kind)
+            n += 1
+            if calls[0] > bound:
+                ctx.violation("split-consumed-windows-beyond-latency-bound-before-yielding",
+                              {"case": AC.case_json(case), "input": kind, "region": [s_, ns], "windows_validated": calls[0], "bound": bound,
+                               "total_windows": len(verdicts)})
+                return
+        ctx.case(("split-validator", kind, data, repr(sorted(AC.case_json(case).items()))), n > 0)
+    except Exception as exc:
+        ctx.violation("exception:" + type(exc).__name__, {"case": AC.case_json(case), "input": kind, "exception": repr(exc)[:300]})
+
+
+def check_limited_source_not_overread(ctx, case, rng):
+    """max_read: the source underneath is never asked for more than the first round(max_read*rate) samples."""
+    built = AC.build_audio(case)
+    if built is None:
+        return
+    data, _ = built
+    bps = case["width"] * case["channels"]
+    total = len(data) // bps
+    if total < 2:
+        return
+    limit_samples = rng.choice((rng.randint(0, total), rng.randint(0, total), (rng.randint(0, total // case["block"]) * case["block"])))
+    t = limit_samples / case["rate"]
+    limit = round(t * case["rate"])
+    src = CBuffer(data, case["rate"], case["width"], case["channels"])
+    kw = AC.split_kwargs(case)
+    kw["max_read" if case["pcm_seed"] & 2 else "mr"] = t
+    try:
+        for _ in auditok.split(src, **kw):
+            pass
+    except Exception as exc:
+        ctx.violation("exception:" + type(exc).__name__, {"case": AC.case_json(case), "max_read": t, "exception": repr(exc)[:300]})
+        return
+    out = getattr(src, "vf_samples", 0)
+    ctx.count("limited_sources_checked")
+    ctx.case(("limited", data, t, repr(sorted(AC.case_json(case).items()))), out > 0)
+    if out > limit:
+        ctx.violation("source-read-beyond-max_read", {"case": AC.case_json(case), "max_read": t, "limit_samples": limit, "samples_handed_out": out})
+
+
 def run_shard(ctx):
     import shutil
     import tempfile
@@ -313,6 +426,8 @@ def run_shard(ctx):
             case = AC.random_split_case(rng, max_windows=60)
             check_split_lazy(ctx, case, tmpdir)
             check_split_lazy_overlap(ctx, AC.random_split_case(rng, max_windows=40, allow_partial=False), rng)
+            check_split_lazy_by_validator(ctx, AC.random_split_case(rng, max_windows=50), tmpdir, rng)
+            check_limited_source_not_overread(ctx, AC.random_split_case(rng, max_windows=40), rng)
             if ctx.out_of_time():
                 break
     finally:
@@ -342,4 +457,4 @@ def inconclusive(merged, tier):
     return [f"monitor never observed {k}" for k in
             ("deliveries_timed", "full_length_tokens_timed", "tokens_delivered_at_end_of_stream", "prefix_runs",
              "prefix_flush_tokens", "prefix_flush_tokens_strictly_shorter", "regions_timed_buffer", "regions_timed_raw",
-             "regions_timed_wav", "regions_timed_stdin", "cases_long", "regions_timed_overlap_reader", "cases_one_tokenizer_for_all_modes") if c.get(k, 0) == 0]
+             "regions_timed_wav", "regions_timed_stdin", "cases_long", "regions_timed_overlap_reader", "cases_one_tokenizer_for_all_modes", "cases_with_a_stale_generator_finalised_mid_run", "regions_timed_at_validator_raw_path", "regions_timed_at_validator_wav_path_lazy", "limited_sources_checked") if c.get(k, 0) == 0]
